@@ -19,7 +19,7 @@ def run(ctx):
     thorough = ctx.tier == "thorough"
     rng = ctx.rng
     # ---------------- parsers
-    gs = [cfggen.family(i) for i in (0, 1, 2, 7, 8)] + [cfggen.gen_cfg(rng, with_error=(rng.random() < 0.5)) for _ in range(45 if not thorough else 600)]
+    gs = [cfggen.family(i) for i in (2, 6, 0, 1, 7, 8)] + [cfggen.gen_cfg(rng, with_error=(rng.random() < 0.5)) for _ in range(45 if not thorough else 600)]
     recs, stats, ws = lrcommon.prepare_parsers(ctx, gs, flags=["-a"])
     recs = [r for r in recs if r.bin][: (12 if not thorough else 200)]
     total = 0
@@ -36,6 +36,18 @@ def run(ctx):
                 s = c02.gen_inputs(r.g, rng, 1, extra_terms=["zz"])[0]
                 segs.append((s, rng.choice([None, None, None, 0, 1, 3]), False))
             hists.append(segs)
+        # histories around a DEEP parse (more than 100 stack entries: the stack's backing arrays grow) on right-recursive grammars
+        deep = None
+        if r.text == recs[0].text and "A : a A" in r.text:
+            deep = ["a"] * 160 + ["c"]
+        elif "S : a S" in r.text:
+            deep = ["a"] * 160 + ["b"]
+        if deep:
+            for _ in range(10):
+                segs = [(c02.gen_inputs(r.g, rng, 1)[0], None, False) for _ in range(rng.randint(0, 2))]
+                segs.append((deep if rng.random() < 0.7 else deep[:-1], None, False))
+                segs += [(c02.gen_inputs(r.g, rng, 1)[0], rng.choice([None, None, 1]), False) for _ in range(rng.randint(1, 3))]
+                hists.append(segs)
         one = [lrcommon.encode_case(r, h) for h in hists]
         fresh = [lrcommon.encode_case(r, [(s, f, True) for (s, f, _) in h]) for h in hists]
         go_one = lrcommon.run_impl(r, one)
